@@ -39,7 +39,7 @@ func TestC06(t *testing.T) {
 			run.Sample(map[string]any{"history": 0, "first_ops": s.Log[:min(len(s.Log), 30)]})
 		}
 	}
-	for _, k := range []string{"st_delegate", "st_undelegate", "st_redelegate", "st_cancel", "slash", "ds_delegate", "ds_redelegate", "ds_unbond", "stake", "modify", "movestake", "unstake"} {
+	for _, k := range []string{"st_delegate", "st_undelegate", "st_redelegate", "st_cancel", "slash", "ds_delegate", "ds_redelegate", "ds_unbond", "stake", "movestake", "unstake"} {
 		run.Require("successful "+k, run.Counter("ok:"+k) > 0)
 	}
 	run.Finish("staking-heavy generated histories; after every tx and block, for every delegator known to x/staking or dualstaking, |sum validator tokens - sum provider delegations| <= number of validator delegations (the code's own per-delegation ceil) and no negative amount; suspended between a slash and the next block boundary; a history is non-trivial when it contains successful x/staking undelegate/redelegate/slash AND dualstaking unbond/redelegate", nHist/2,
@@ -65,7 +65,7 @@ func TestC07(t *testing.T) {
 			run.Sample(map[string]any{"history": 0, "first_ops": s.Log[:min(len(s.Log), 30)]})
 		}
 	}
-	for _, k := range []string{"ds_delegate", "ds_redelegate", "ds_unbond", "stake", "modify", "movestake", "unstake", "slash"} {
+	for _, k := range []string{"ds_delegate", "ds_redelegate", "ds_unbond", "stake", "movestake", "unstake", "slash"} {
 		run.Require("successful "+k, run.Counter("ok:"+k) > 0)
 	}
 	run.Require("an entry fell below the spec minimum", run.Counter("entries_that_fell_below_min_stake") > 0)
